@@ -10,7 +10,7 @@ VARIABLE i
 Cases == JsonDeserialize(IOEnv.OBS_FILE)
 SetOf(s) == {s[k] : k \in 1..Len(s)}
 TestOf(c) == [kind |-> c.test.kind, feats |-> SetOf(c.test.feats),
-              crash |-> [stage |-> c.test.crash.stage, when |-> c.test.crash.when, hit |-> c.test.crash.hit]]
+              crash |-> [stage |-> c.test.crash.stage, when |-> c.test.crash.when, hit |-> c.test.crash.hit, exc |-> c.test.crash.exc]]
 TInit == /\ i \in 1..Len(Cases)
          /\ test = TestOf(Cases[i])
          /\ stack = <<[kind |-> test.kind, pc |-> 1, added |-> 0]>>
